@@ -46,6 +46,7 @@ def hostile_pass(pid, a):
       * the interpreter started with -O (assert statements and `if __debug__` blocks stripped),
       * the process time zone on the other side of UTC than the main pass (a zone with daylight saving),
       * every logger enabled down to DEBUG with a handler that formats each record,
+      * Python Development Mode (-X dev: codec and error-handler names are checked on every call, ...),
       * warnings turned into errors (-W error; not -bb: the pinned tree itself formats bytes into log and error texts),
       * the decimal context of the process lowered to 6 digits,
       * another PYTHONHASHSEED.
@@ -58,7 +59,7 @@ def hostile_pass(pid, a):
     import tempfile
 
     odir = tempfile.mkdtemp(prefix=f"verif-{pid}-optimised-")  # scratch, removed below
-    cmd = [sys.executable, "-O", "-W", "error", "-B", os.path.abspath(__file__), pid, "--tier", "quick"]
+    cmd = [sys.executable, "-O", "-X", "dev", "-W", "error", "-B", os.path.abspath(__file__), pid, "--tier", "quick"]
     if a.only:
         cmd += ["--only", a.only]
     child_env = dict(os.environ, **hostile_environment(), VERIF_TIER="quick", VERIF_EVIDENCE_DIR=odir, VERIF_REPLAY_TAG="H")
